@@ -50,7 +50,7 @@ func c14RouteSizes(tier string) []int {
 
 func c14Counts(tier string) (random, exhaustive int) {
 	if tier == "thorough" {
-		return 600000, (1 + 40 + 40*40 + 40*40*40 + c14ExhaustivePerCase - 1) / c14ExhaustivePerCase
+		return 1500000, (1 + 40 + 40*40 + 40*40*40 + c14ExhaustivePerCase - 1) / c14ExhaustivePerCase
 	}
 	return 25000, (40 + 40*40 + c14ExhaustivePerCase - 1) / c14ExhaustivePerCase
 }
